@@ -402,6 +402,9 @@ type CWorld struct {
 	// "deny" everything revoked, nothing resolvable, no key resolvable. What a cache that outlives
 	// the environment it was filled in gets wrong.
 	phase string
+	// Full: every token again, viewed over a store that holds the root block of every token of the
+	// world (same links): what a sender who embeds everything transmits
+	Full []delegation.Delegation
 }
 
 // fakeSigner claims one DID and signs with another principal's key (or absentee).
@@ -639,6 +642,19 @@ func Concretise(w *AWorld) (*CWorld, error) {
 		}
 		cw.idOf[d.Link().String()] = i
 	}
+	if all, err := blockstore.NewBlockStore(); err == nil {
+		for _, d := range cw.D {
+			all.Put(d.Root())
+		}
+		cw.Full = make([]delegation.Delegation, len(cw.D))
+		for i, d := range cw.D {
+			if f, err := delegation.NewDelegation(d.Root(), all); err == nil {
+				cw.Full[i] = f
+			} else {
+				cw.Full[i] = d
+			}
+		}
+	}
 	w.BS = make([][]int, len(w.Tokens))
 	for i, d := range cw.D {
 		seen := map[int]bool{}
@@ -663,6 +679,13 @@ func (cw *CWorld) expand(s string) string {
 	}
 	if strings.HasSuffix(s, "^") { // the same DID string with the case of its letters swapped
 		return swapCase(cw.expand(strings.TrimSuffix(s, "^")))
+	}
+	if i := strings.IndexAny(s, "#/?!"); i > 0 { // "@3#frag", "@3/path", "@3?q": a DID URL; "@3!" = upper-case scheme
+		if s[i] == '!' {
+			d := cw.expand(s[:i])
+			return "DID:" + strings.TrimPrefix(d, "did:")
+		}
+		return cw.expand(s[:i]) + s[i:]
 	}
 	rest := s[1:]
 	cut := ""
@@ -781,6 +804,9 @@ func (cw *CWorld) capability(log *runLog) validator.CapabilityParser[NbMap] {
 }
 
 func (cw *CWorld) capabilityFor(can string, log *runLog) validator.CapabilityParser[NbMap] {
+	if cw.A.Desc.With == "libdid" { // the library's own reader of DID resources
+		return validator.NewCapability[NbMap](can, schema.DIDString(), nbReader{}, cw.derivesFunc(log))
+	}
 	return validator.NewCapability[NbMap](can, strReader{cw.A.Desc.With}, nbReader{}, cw.derivesFunc(log))
 }
 
